@@ -14,6 +14,8 @@ BufStep(st, i) ==
   LET d == Input(st)
       tag == "step" \o ToString(i) \o "_fn" \o ToString(st.fn) \o "_mode" \o ToString(st.mode)
   IN F(st.shared = st["nil"], "C14", "outcome_differs_from_no_buffer_" \o tag)
+     \* the Buffer is a scratch buffer in the sense of C16 as well: results must not depend on its prior contents
+     \cup F(st.shared = st["nil"], "C16", "result_depends_on_prior_use_of_the_Buffer_" \o tag)
      \cup F(st.slog = st.nlog, "C14", "handler_calls_differ_from_no_buffer_" \o tag)
      \cup F(st.shared[4] = 0 /\ st["nil"][4] = 0, "C10", "panic")
      \cup (IF st.fn = 1 THEN F(st["nil"][1] = (IF M!IsValid(d) THEN 1 ELSE 0) /\ st.shared[1] = st["nil"][1], "C14", "valid_differs_from_spec_" \o tag)
